@@ -63,14 +63,32 @@ def encOpts (os : List (Nat × Bytes)) : Bytes :=
 def flagsToU32 (f : Flags) : Nat :=
   f.dir % 4 + f.rcv / 4 % 8 * 4 + f.fcs / 32 % 32 * 32 + f.lle / 65536 % 65536 * 65536
 
+/-- an optional uint64 option -/
+def optU64 (code : Nat) (v : Option Nat) : List (Nat × Bytes) :=
+  match v with
+  | some v => [(code, putLe64 v)]
+  | none => []
+
+/-- an optional uint32 option -/
+def optU32 (code : Nat) (v : Option Nat) : List (Nat × Bytes) :=
+  match v with
+  | some v => [(code, putLe32 v)]
+  | none => []
+
+/-- the epb_flags option -/
+def optFlags (f : Option Flags) : List (Nat × Bytes) :=
+  match f with
+  | some f => [(ngOptionCodeEpbFlags, putLe32 (flagsToU32 f))]
+  | none => []
+
 /-- NgPacketOptions.toNgOptions, values already in their wire form -/
 def pktOptList (o : PktOpts) : List (Nat × Bytes) :=
   o.comments.map (fun c => (ngOptionCodeComment, c))
-  ++ (match o.flags with | some f => [(ngOptionCodeEpbFlags, putLe32 (flagsToU32 f))] | none => [])
+  ++ optFlags o.flags
   ++ o.hashes.map (fun h => (ngOptionCodeEpbHash, u8 h.1 :: h.2))
-  ++ (match o.dropCount with | some v => [(ngOptionCodeEpbDropCount, putLe64 v)] | none => [])
-  ++ (match o.packetId with | some v => [(ngOptionCodeEpbPacketID, putLe64 v)] | none => [])
-  ++ (match o.queue with | some v => [(ngOptionCodeEpbQueue, putLe32 v)] | none => [])
+  ++ optU64 ngOptionCodeEpbDropCount o.dropCount
+  ++ optU64 ngOptionCodeEpbPacketID o.packetId
+  ++ optU32 ngOptionCodeEpbQueue o.queue
   ++ o.verdicts.map (fun h => (ngOptionCodeEpbVerdict, u8 h.1 :: h.2))
 
 def strOpt (code : Nat) (v : Bytes) : List (Nat × Bytes) := if v.isEmpty then [] else [(code, v)]
